@@ -70,7 +70,7 @@ def clause_from_origin(origin, unit_lines, line):
     parts = origin.split(":")
     if parts[0] == "clause":
         return parts[1]
-    if parts[0] == "hint":
+    if parts[0] in ("hint", "check"):
         return parts[1] if parts[1] != "-" else None
     # prelude line with an inline tag  //[Cxx.y]
     if 1 <= line <= len(unit_lines):
@@ -84,7 +84,7 @@ def site_of(origin):
     parts = origin.split(":")
     if parts[0] == "repo":
         return "%s:%s" % (parts[1], parts[2])
-    if parts[0] in ("clause", "hint"):
+    if parts[0] in ("clause", "hint", "check"):
         return "contracts/%s:%s" % (parts[2], parts[3])
     if parts[0] == "vrs":
         return "contracts/%s:%s" % (parts[1], parts[2])
